@@ -23,7 +23,9 @@ import (
 //   - {*wildcard} path parameters,
 //   - file servers (single file, directory with wildcard), alone and under an API base path,
 //   - several services sharing path suffixes under different base paths,
-//   - security requirements at API / service level with a method opting out (NoSecurity).
+//   - security requirements at API / service level with a method opting out (NoSecurity),
+//   - path parameters declared explicitly with Param() before / between / after query parameters,
+//   - a file server on the very path of an endpoint that uses another verb.
 //
 // The designs are given to goa as they are: a design goa rejects is simply not linked (it is
 // outside the property's quantifier "accepted designs") and is counted in the evidence notes.
@@ -203,7 +205,105 @@ func RoutesSpecs() []*spec.Spec {
 		{Name: "s1", Path: "/b", Methods: []*spec.Method{basic(2, "GET", "/x", map[string]string{"route": "services", "shape": "same-suffix"})}},
 		{Name: "s2", Methods: []*spec.Method{basic(3, "GET", "/x", map[string]string{"route": "services", "shape": "no-service-path"})}},
 	}})
+	// (designs below were added later; they are appended so that the numbering of the earlier
+	// designs does not change)
+	// path parameter declared explicitly with Param(), before / between / after the query
+	// parameters (goa appends implicitly declared path parameters at the end of the endpoint
+	// parameters, an explicit Param() keeps its place), with and without a body
+	for _, v := range []struct {
+		verb  string
+		order []string
+		label string
+	}{
+		{"GET", []string{"id", "qa", "qb"}, "path-param-first"},
+		{"GET", []string{"qa", "id", "qb"}, "path-param-between"},
+		{"GET", []string{"qa", "qb", "id"}, "path-param-last"},
+		{"POST", []string{"id", "qa", "qb"}, "path-param-first"},
+		{"PUT", []string{"qa", "id", "qb"}, "path-param-between"},
+	} {
+		attrs := []*spec.Attr{spec.A("qa", str()), spec.A("id", spec.P(spec.KInt)), spec.A("qb", spec.P(spec.KInt))}
+		if bodyVerb(v.verb) {
+			attrs = append(attrs, spec.A("bb", str()))
+		}
+		m := required(routeMethod(0, v.verb, "/items/{id}", map[string]string{"route": "explicit-params", "order": v.label, "verb": v.verb}, attrs...), "id", "qa")
+		for _, n := range v.order {
+			query(m, n, n)
+		}
+		add(&spec.Spec{Services: []*spec.Service{{Name: "s0", Methods: []*spec.Method{m}}}})
+	}
+	// two path parameters declared explicitly around a query parameter, under a service base path
+	{
+		m := required(routeMethod(0, "GET", "/a/{ida}/b/{idb}", map[string]string{"route": "explicit-params", "order": "two-path-params-around-query", "verb": "GET"},
+			spec.A("ida", str()), spec.A("qa", str()), spec.A("idb", str())), "ida", "idb")
+		query(query(query(m, "ida", "ida"), "qa", "qa"), "idb", "idb")
+		add(&spec.Spec{Services: []*spec.Service{{Name: "s0", Path: "/svc", Methods: []*spec.Method{m}}}})
+	}
+	// a file server on the very path of an endpoint that uses another verb: same service, an
+	// earlier service, a later service
+	{
+		post := func(n int, path string) *spec.Method {
+			return routeMethod(n, "POST", path, map[string]string{"route": "files", "files": "same-path-as-endpoint"}, spec.A("bb", str()))
+		}
+		add(&spec.Spec{Services: []*spec.Service{{Name: "s0", Files: []string{"/feedback /srv/feedback.html"}, Methods: []*spec.Method{
+			post(0, "/feedback"), routeMethod(1, "DELETE", "/feedback", map[string]string{"route": "files", "files": "same-path-as-endpoint"})}}}})
+		add(&spec.Spec{Services: []*spec.Service{
+			{Name: "s0", Methods: []*spec.Method{post(0, "/shared")}},
+			{Name: "s1", Files: []string{"/shared /srv/shared.html"}, Methods: []*spec.Method{basic(1, "GET", "/m1", map[string]string{"route": "files", "files": "same-path-as-endpoint-of-earlier-service"})}},
+		}})
+		add(&spec.Spec{Services: []*spec.Service{
+			{Name: "s0", Files: []string{"/shared /srv/shared.html"}, Methods: []*spec.Method{basic(0, "GET", "/m0", map[string]string{"route": "files", "files": "same-path-as-endpoint-of-later-service"})}},
+			{Name: "s1", Methods: []*spec.Method{post(1, "/shared")}},
+		}})
+	}
 	return out
+}
+
+// RequiredDefault is the "required and default" family: one scalar attribute per method that is
+// both listed in Required and given a non-zero Default, carried in the query string, a header
+// or a cookie (wire name different from the attribute name), plus the same attribute required
+// without default as control. What the server does when such a parameter is absent and what the
+// documents say about it must agree (C14); C07 compares the documented location and flags.
+func RequiredDefault() check.Family {
+	var cases []spec.MethodCase
+	n := 0
+	for _, te := range []struct {
+		name string
+		t    *spec.Type
+		def  any
+	}{
+		{"int", spec.P(spec.KInt), 7}, {"int32", spec.P(spec.KInt32), 7}, {"int64", spec.P(spec.KInt64), 7},
+		{"uint", spec.P(spec.KUInt), 7}, {"uint32", spec.P(spec.KUInt32), 7}, {"uint64", spec.P(spec.KUInt64), 7},
+		{"float32", spec.P(spec.KFloat32), 2.5}, {"float64", spec.P(spec.KFloat64), 2.5},
+		{"bool", spec.P(spec.KBool), true}, {"string", spec.P(spec.KString), "dflt"},
+	} {
+		for _, loc := range []string{spec.LocQuery, spec.LocHeader, spec.LocCookie} {
+			for _, req := range []string{"required+default", "required"} {
+				if req == "required" && te.name != "int" && te.name != "string" && te.name != "bool" {
+					continue // controls: three kinds are enough
+				}
+				t := *te.t
+				a := spec.A("aa", &t)
+				if req == "required+default" {
+					a = spec.AD("aa", &t, te.def)
+				}
+				m := &spec.Method{Name: fmt.Sprintf("m%d", n), Feat: map[string]string{"family": "oa-reqdef", "type": te.name, "loc": loc, "req": req}}
+				n++
+				m.Payload = &spec.Type{K: spec.KObject, Attrs: []*spec.Attr{a}, Required: []string{"aa"}}
+				m.HTTP = &spec.HTTPMap{Verb: "POST", Path: "/" + m.Name}
+				wire := spec.Map{Attr: "aa", Wire: map[string]string{spec.LocQuery: "qaa", spec.LocHeader: "X-Aa", spec.LocCookie: "caa"}[loc]}
+				switch loc {
+				case spec.LocQuery:
+					m.HTTP.Params = []spec.Map{wire}
+				case spec.LocHeader:
+					m.HTTP.Headers = []spec.Map{wire}
+				case spec.LocCookie:
+					m.HTTP.Cookies = []spec.Map{wire}
+				}
+				cases = append(cases, spec.MethodCase{M: m})
+			}
+		}
+	}
+	return check.Family{Name: "oa-reqdef", Cases: cases}
 }
 
 // BuildRoutes builds (or reuses) the corpus of the route-feature family.
